@@ -243,10 +243,10 @@ Fixpoint atom_flag_count (items : list item) : nat :=
 Definition finish_minimize (c : config) : res config :=
   let '(mn, mx, rp) :=
     match cf_chunk c with
-    | Some z => if truthy_Z z then (z, z, RNever) else (cf_min c, cf_max c, cf_repeat c)
+    | Some z => (z, z, RNever)
     | None => (cf_min c, cf_max c, cf_repeat c)
     end in
-  let lim := match cf_limit c with Some z => if truthy_Z z then Some z else None | None => None end in
+  let lim := cf_limit c in
   if negb (is_power_of_two mn) || negb (is_power_of_two mx) then Err ValueError
   else Ok {| cf_strategy := cf_strategy c; cf_atom := cf_atom c; cf_min := mn; cf_max := mx;
              cf_repeat := rp; cf_first := cf_first c; cf_limit := lim; cf_chunk := cf_chunk c;
